@@ -552,7 +552,11 @@ func (w *LockWalker) call(fn *ssa.Function, r *Resolver, ins ssa.Instruction, cc
 		if st.Acq[ln] >= 1 {
 			w.ev(rec, LEvent{Kind: "secondcs", What: ln, Pos: pos, Fn: fname, Held: st.heldList(), Stack: stack})
 		}
-		w.ev(rec, LEvent{Kind: "acquire", What: ln, Pos: pos, Fn: fname, Held: st.heldList(), Stack: stack})
+		shared := ""
+		if sc := staticCallee(cc); sc != nil && sc.Name() == "RLock" {
+			shared = "shared"
+		}
+		w.ev(rec, LEvent{Kind: "acquire", What: ln, Pos: pos, Fn: fname, Held: st.heldList(), Stack: stack, Detail: shared})
 		st = st.clone()
 		st.Held[ln] = true
 		st.May[ln] = true
